@@ -10,7 +10,7 @@ A0(s, l, kind) == [s |-> s, l |-> l, pos |-> FALSE, kind |-> kind, vm |-> IF kin
                    mand |-> FALSE, card |-> [t |-> "none", a |-> 0, b |-> 0], checks |-> <<>>, formats |-> <<>>,
                    sep |-> 44, clear |-> FALSE, sort |-> FALSE, uniq |-> "no", multi |-> FALSE, req |-> <<>>, exc |-> <<>>,
                    init |-> CASE kind = "flag" -> FALSE [] kind = "int" -> 0 [] OTHER -> <<>>,
-                   depr |-> FALSE, unset |-> FALSE, cspell |-> 0, grp |-> 0, hidden |-> FALSE, dashes |-> FALSE]
+                   depr |-> FALSE, unset |-> FALSE, cspell |-> 0, grp |-> 0, hidden |-> FALSE, dashes |-> FALSE, mix |-> FALSE]
 C0(args) == [abbr |-> TRUE, endvalues |-> FALSE, args |-> args, hcons |-> <<>>]
 Cfgs == <<
    C0(<<A0(97, <<>>, "flag"), A0(98, <<97, 98>>, "str")>>),                                   \* flag a, string b/ab
